@@ -5,6 +5,7 @@
 -/
 import MotoModel.Proofs.DiskSector
 import MotoModel.Spec.Dos
+import MotoModel.Proofs.DiskByte0
 namespace Moto.C04
 open Moto Moto.Disk
 
@@ -85,5 +86,41 @@ theorem init_wf (sd : Side) (h : C11.WFSide sd) : C11.WFSide (initFileSystem sd)
     `initFileSystem` — is accepted by the independent checker written from the layout description:
     table byte 0 zero, 160 valid statuses, blocks 40 and 41 reserved, empty catalog, nothing leaked. -/
 theorem fresh_side_is_consistent : Spec.Dos.fsck true (initFileSystem blankSide) = true := by decide +kernel
+
+/-- **C04 (every consistent side is a well-formed file system for the independent checker)**:
+    `Spec.Dos.fsck` — written from the layout description: geometry, 160 valid statuses, track 20
+    reserved, every live entry with an acyclic chain ending in C1..C8, no block shared, used blocks =
+    blocks of the chains, at most 255 bytes in a last sector — accepts every side that satisfies
+    the invariant of C05. -/
+theorem consistent_side_passes_fsck {sd : Side} {bat : List Nat} {own : Nat → List Nat} (inv : SideInv sd bat own) :
+    Spec.Dos.fsck false sd = true := fsck_of_inv inv
+
+/-- **C04 (the independent reader reads what the tool reads)**: on a consistent side the decoder
+    written from the layout description succeeds and lists, in catalog order, every live entry with
+    its raw name/extension/kind/flag bytes, the chain, the sectors used in the last block, the bytes
+    in the last sector, and as content — 255 bytes per sector along the chain — exactly the bytes the
+    tool's own reader returns. -/
+theorem independent_reader_agrees {sd : Side} {bat : List Nat} {own : Nat → List Nat} (inv : SideInv sd bat own) :
+    Spec.Dos.files sd = some ((List.range 112).filterMap (specFileAt sd bat own)) := spec_files_inv inv
+
+/-- **C04 (every image the tool creates)**: for every source list (any contents and sizes,
+    markers, missing files, refusals) `--create` writes the serialisation of four sides each of
+    which the strict independent checker accepts (table byte 0 zero included). -/
+theorem created_image_is_well_formed (fl : Flavour) (w : Tape.World) (verbose : Bool) (archive : Str) (srcs : List Str)
+    (hs : ∀ src ∈ srcs, CleanSrc src) :
+    ∃ img, img.length = 4 ∧ (create fl w verbose archive srcs).writes = [(archive, save fl img)]
+      ∧ ∀ k, k < 4 → Spec.Dos.fsck true (img.getD k []) = true := by
+  have hfresh0 : ImgAll Byte0 ((List.replicate 4 blankSide).map initFileSystem) := by
+    intro k hk
+    have : ((List.replicate 4 blankSide).map initFileSystem).getD k [] = freshSide := by
+      rw [List.getD_eq_getElem?_getD, List.getElem?_map, List.getElem?_replicate, if_pos hk]
+      simp only [Option.map_some, Option.getD_some, freshSide]
+    rw [this]; exact fresh_byte0
+  obtain ⟨st, hst, hok, hp⟩ := performCore_pres byte0_preserved w verbose _ srcs fresh_img_ok hfresh0 hs
+  refine ⟨st.img, hok.1, ?_, ?_⟩
+  · unfold create performOn; rw [if_neg (by simp), hst]
+  · intro k hk
+    obtain ⟨bat, own, inv⟩ := hok.2 k hk
+    exact fsck_strict _ (fsck_of_inv inv) (hp k hk)
 
 end Moto.C04
